@@ -156,7 +156,7 @@ class SimOS:
                 self.k.log('lockf.edeadlk', pid, fd, mode)
                 raise OSError(errno.EDEADLK, 'Resource deadlock avoided')
             waits = self.lock_waits.setdefault(pid, [])
-            entry = set(blockers)
+            entry = (inode, mode)
             waits.append(entry)
             try:
                 self.k.park('lockf', (inode, mode, pid),
@@ -172,7 +172,9 @@ class SimOS:
         self.k.log('lockf.ok', pid, fd, mode)
 
     def _would_deadlock(self, pid, blockers):
-        # Linux: follow "owner is blocked on a lock held by ..." edges (max 10 hops)
+        # Linux: follow "owner is blocked on a lock held by ..." edges (max 10 hops).  A
+        # waiter's edge is evaluated against the locks that conflict with it NOW: Linux
+        # detaches a waiter as soon as its blocker unlocks, a stale edge must not count.
         seen = set()
         frontier = list(blockers)
         hops = 0
@@ -185,8 +187,8 @@ class SimOS:
                 if p in seen:
                     continue
                 seen.add(p)
-                for entry in self.lock_waits.get(p, ()):
-                    nxt.extend(entry)
+                for (inode, mode) in self.lock_waits.get(p, ()):
+                    nxt.extend(self._conflicts(inode, p, mode))
             frontier = nxt
         return pid in frontier
 
